@@ -106,6 +106,17 @@ CHECKS = {
     ref="5/C10"),
 }
 
+# scale families (DESIGN 11.8): production-size inputs judged by TLC through sparse tables
+SCALE = {"C01": "Trace_WellFormedScale", "C02": "Trace_MultiKneeScale", "C03": "Trace_ElbowScale", "C04": "Trace_ExplainScale",
+         "C05": "Trace_ChainScale", "C06": "Trace_GlobalScale", "C07": "Trace_MappingScale", "C08": "Trace_PipelineScale",
+         "C09": "Trace_DetectorsScale", "C10": "Trace_ZMethod", "C11": "Trace_ClusteringScale", "C12": "Trace_ClusterScale",
+         "C13": "Trace_FiltersScale", "C14": "Trace_EvenScale", "C17": "Trace_RankScale", "C18": "Trace_HullScale",
+         "C19": "Trace_EvaluationScale", "C20": "Purity"}
+for _pid, _mod in SCALE.items():
+    if _pid in CHECKS and os.path.exists(os.path.join(ROOT, "spec", _mod + ".tla")) and "Scale" in open(os.path.join(ROOT, "harness", "props", _pid.lower() + ".py")).read():
+        CHECKS[_pid]["technique"] += ("; TLC trace validation of production-size executions (10^3..10^5 points, thousands of knees / clusters / "
+                                      "pending ranges) through sparse oracle tables (%s)" % _mod)
+
 PENDING = {}
 for i in range(1, 21):
     pid = "C%02d" % i
